@@ -35,6 +35,10 @@ var c19Pools = []poolCfg{
 	{"w10:cpu-limit-3 | w1:open", func() []*v1.NodePool {
 		return []*v1.NodePool{world.NodePool("limited", weight(10), limitsMod("3")), world.NodePool("open", weight(1))}
 	}},
+	// a heavy pool far below a generous cpu limit (its limits name cpu only), which may already own a node
+	{"w10:cpu-limit-100 | w1:open", func() []*v1.NodePool {
+		return []*v1.NodePool{world.NodePool("roomy", weight(10), limitsMod("100")), world.NodePool("open", weight(1))}
+	}},
 	{"w10:on-demand | w0:open | w0:zone-b", func() []*v1.NodePool {
 		return []*v1.NodePool{world.NodePool("od", weight(10), reqsMod(oracle.R(v1.CapacityTypeLabelKey, corev1.NodeSelectorOpIn, "on-demand"))), world.NodePool("open"),
 			world.NodePool("zb", reqsMod(oracle.R(corev1.LabelTopologyZone, corev1.NodeSelectorOpIn, "b")))}
@@ -212,7 +216,7 @@ func init() {
 			}
 			bl = append(bl, m)
 		}
-		r.Rule = fmt.Sprintf("weighted NodePool sets (%d) x catalogs %v x existing capacity {none, one node} x all batches of <=%d pods from %d shapes without preferences or inter-pod constraints x every candidate-evaluation completion order with workers %v and <=%d deviations; "+
+		r.Rule = fmt.Sprintf("weighted NodePool sets (%d) x catalogs %v x existing capacity {none, one node of the lightest pool, one node of the heaviest pool} x all batches of <=%d pods from %d shapes without preferences or inter-pod constraints x every candidate-evaluation completion order with workers %v and <=%d deviations; "+
 			"weight clause: for the pod that OPENED each NodeClaim (commit trace, H1) every strictly heavier pool must be infeasible for that pod alone by the admission oracle (limits accounted most pessimistically); "+
 			"price clause: the same world is solved with MaxInstanceTypes=600 and with MaxInstanceTypes in %v; the truncated launch list must be a subset of the full one, of the right size, and drop no type whose cheapest compatible available offering is strictly cheaper than a kept one. "+
 			"non-trivial = distinct (case, outcome) in which a NodeClaim was opened with >=2 pools feasible or a list was truncated", len(c19Pools), cats, bsz, len(shapes), workers, bound, maxITs)
@@ -220,11 +224,12 @@ func init() {
 		saved := poolCfgs
 		defer func() { poolCfgs = saved }()
 		poolCfgs = c19Pools
-		nodesSel := []int{0, 1}
+		// existing capacity: none, one node of the lightest pool, one node of the HEAVIEST pool
+		nodesSel := []int{0, 1, 1}
 		n := enum.Size(len(bl), len(cats), len(c19Pools), len(nodesSel))
 		enum.Run(r, n, func(idx int64, l *ev.Local) {
 			d := enum.Odo(idx, len(bl), len(cats), len(c19Pools), len(nodesSel))
-			c := SchedCase{Batch: bl[d[0]], Catalog: cats[d[1]], Pool: d[2], Nodes: nodesSel[d[3]], Pref: options.PreferencePolicyRespect, MinV: options.MinValuesPolicyStrict, Workers: 1}
+			c := SchedCase{Batch: bl[d[0]], Catalog: cats[d[1]], Pool: d[2], Nodes: nodesSel[d[3]], NodesInHeaviest: d[3] == 2, Pref: options.PreferencePolicyRespect, MinV: options.MinValuesPolicyStrict, Workers: 1}
 			// ---- weight clause under every schedule
 			for _, wk := range workers {
 				c.Workers = wk
